@@ -217,6 +217,7 @@ func (s *State) top() *Frame { return s.frames[len(s.frames)-1] }
 type Ctx struct {
 	// opt startloop N: execution starts at the header of natural loop N from a state that is arbitrary except for the
 	// function's requires and the loop's invariants (values defined before the loop are created fresh on first use)
+	trivialNames map[string]bool
 	startLoop    *ssa.BasicBlock
 	startLoopEntered bool
 	lazyRegs     bool
